@@ -29,14 +29,16 @@ SLICE = 130
 def bounds(tier):
     if tier == "quick":
         return dict(lengths=list(range(1, 11)) + [16], k_range="[-2n-1, 2n+1] plus +-(37n+3), +-(1000n+4), +-(5003n+1), +-(10^6+7), +-(2^40+1)", operators=[">>", "<<"],
-                    feature_table="all simple (a,b,strand) + join menu + whole-length (n<=10); boundary menu for n=16")
+                    feature_table="all simple (a,b,strand) + join menu + whole-length (n<=10); boundary menu for n=16",
+                    spelling_pass="states = (rotation, the library's own spelling of every location); menu k in {1,2,n-1,n+1,-1,-3} x {>>,<<}; to closure")
     return dict(lengths=list(range(1, 16)) + [16, 23, 40], k_range="[-2n-1, 2n+1]", operators=[">>", "<<"],
-                feature_table="all simple (a,b,strand) + join menu + whole-length (n<=15); boundary menu for n in {16,23,40}")
+                feature_table="all simple (a,b,strand) + join menu + whole-length (n<=15); boundary menu for n in {16,23,40}",
+                spelling_pass="states = (rotation, the library's own spelling of every location); menu k in {1,2,n-1,n+1,-1,-3} x {>>,<<}; to closure")
 
 
 def goals(tier):
     return ["closure-reached", "origin-spanning-feature", "past-the-end-location-produced", "negative-k", "k-larger-than-n",
-            "whole-length-source", "minus-strand-join", "all-n-states-reached", "k-thousands-of-turns", "operand-unchanged-checked"]
+            "whole-length-source", "minus-strand-join", "all-n-states-reached", "k-thousands-of-turns", "operand-unchanged-checked", "spelling-pass-closed"]
 
 
 def word(n):
@@ -236,8 +238,59 @@ def run_unit(unit, st, tier):
     st.goal("closure-reached")
     if len(seen) == n or len(set(init["seq"])) < n:
         st.goal("all-n-states-reached")
+    spelling_pass(st, init, rec0, n, s, nsl)
     st.extra["max_states_one_graph"] = max(st.extra["max_states_one_graph"], len(seen))
     st.sample(dict(n=n, table_slice=[s, nsl], history=[], op=">>", k=1 % max(n, 1), seq=init["seq"], features=len(init["feats"])))
+
+
+def raw_spelling(rec):
+    """how the library currently spells the locations (the same nucleotides can be written with past-the-end or negative
+    coordinates, depending on the operations a record went through)"""
+    return json.dumps(sorted((f.id, snapshot.loc_parts(f.location)) for f in rec.features))
+
+
+SPELL_KS = [1, 2, -1, -3]
+
+
+def spelling_pass(st, init, rec0, n, s, nsl):
+    """Merging states by what they *denote* is only sound if equal denotations have equal futures -- but the library's own
+    spelling of a location depends on the path.  Second search: a state is (rotation, spelling of every location); every
+    reached spelling gets the menu `>> k`, `<< k` for k in {1, 2, n-1, n+1, -1, -3}; to closure (a handful of states per
+    graph).  Its edges are compared with the same model; they are counted as traces / transitions, not as scenarios of the
+    declared space."""
+    if n < 2:
+        return
+    ks = SPELL_KS + [n - 1, n + 1]
+    seen = {(0, raw_spelling(rec0)): (rec0, [])}
+    frontier = list(seen)
+    cap = 6 * n + 6
+    while frontier and len(seen) <= cap:
+        nxt = []
+        for key in frontier:
+            rec, hist = seen[key]
+            for op in (">>", "<<"):
+                for k in ks:
+                    scn = dict(n=n, table_slice=[s, nsl], history=hist, op=op, k=k)
+                    try:
+                        out = apply(rec, op, k)
+                    except Exception as e:
+                        st.violation("rotate", "raises-" + type(e).__name__, scn, "a record", "{}: {}".format(type(e).__name__, e))
+                        continue
+                    r2 = (key[0] + k) % n if op == ">>" else (key[0] - k) % n
+                    compare(st, scn, observe(out, n), model(init, r2))
+                    st.traces += 1
+                    st.transitions += 1
+                    st.extra["spelling_pass_edges"] += 1
+                    k2 = (r2, raw_spelling(out))
+                    if k2 not in seen:
+                        seen[k2] = (out, hist + [[op, k]])
+                        nxt.append(k2)
+        frontier = nxt
+    st.extra["spelling_pass_states"] += len(seen)
+    if frontier:
+        st.caps.append("n={}: spelling pass stopped at {} states".format(n, len(seen)))
+    else:
+        st.goal("spelling-pass-closed")
 
 
 def replay(scn, sub, st):
